@@ -179,6 +179,11 @@ class Driver:
             if n in t.nodes:
                 cp = copy.deepcopy(t)
                 lt = cp.tensors[n]
+                if kind == 1 and not np.any(lt):
+                    # an exactly ZERO tensor: the "untruncated" SVD (tolerances -inf) of the library keeps one singular value
+                    # (0 * -inf = nan cutoff, C10's subject) while the store model assumes min(rows, cols); the split of a zero
+                    # tensor is exercised through QR instead (the op is rewritten in place, so the model sees the same op)
+                    op[6] = kind = 0
             kw = {}
             if oid is not None:
                 kw_o = oid
